@@ -272,6 +272,12 @@ def omission_rule(ctx, rule: str) -> None:
     inits = [n for n in walk_no_nested(fn.node) if isinstance(n, ast.Assign) and unparse(n.targets[0]) == "is_zero" and isinstance(n.value, ast.Constant)]
     ctx.check(rule, len(inits) == 1 and inits[0].value.value is True, "_format_segment_tree: is_zero starts True", "v2version._format_segment_tree: is_zero initial value changed", "", loc=fn.loc())
     res = shapes.single_def(fn, "result")
+    if res is None:
+        frets = [n for n in walk_no_nested(fn.node) if isinstance(n, ast.Return) and isinstance(n.value, ast.Call) and unparse(n.value.func) == "FormatedSeg"]
+        if len(frets) == 1:
+            fa = dict(zip(prog.klass("v2version.FormatedSeg").fields, frets[0].value.args))
+            fa.update(shapes.kwargs_of(frets[0].value))
+            res = fa.get("result")
     ok = isinstance(res, ast.IfExp) and unparse(res.test) == "is_zero" and isinstance(res.body, ast.Constant) and res.body.value == "" \
         and isinstance(res.orelse, ast.Call) and isinstance(res.orelse.func, ast.Attribute) and res.orelse.func.attr == "join" and const_str(res.orelse.func.value) == ""
     ctx.check(rule, ok, "_format_segment_tree: an all-zero group renders as the empty string, otherwise all its parts are joined", "v2version._format_segment_tree: omission result changed",
@@ -286,28 +292,46 @@ def omission_rule(ctx, rule: str) -> None:
     fs = prog.function("v2version._format_segment")
     ctx.visit(fs.fq)
     fg = cfgs.get(fs.fq)
-    fpc = PathCond(fg)
-    kinds = {}
-    for n in fg.nodes:
-        if n.kind == "stmt" and isinstance(n.ast, ast.Return) and isinstance(n.ast.value, ast.Call) and unparse(n.ast.value.func) == "FormatedSeg" and n.id in fg.reachable():
-            a0, a1 = n.ast.value.args[0], n.ast.value.args[1]
-            if isinstance(a0, ast.Constant) and isinstance(a1, ast.Constant):
-                kinds[(a0.value, a1.value)] = kinds.get((a0.value, a1.value), BF.false()) | fpc.reach(n.id)
-    lit_atoms = [a for a in fpc.atoms if a in ("is_literal_seg", "len(used_parts) == 0", "used_parts")]
-    ctx.require(set(kinds) == {(True, False), (False, True), (False, False)} and len(lit_atoms) == 1, "_format_segment: return classification not recognised")
-    L = BF.var(lit_atoms[0]) if lit_atoms[0] != "used_parts" else ~BF.var("used_parts")
-    if lit_atoms[0] == "is_literal_seg":
-        d = shapes.single_def(fs, "is_literal_seg")
-        ctx.check(rule, d is not None and unparse(d) in ("len(used_parts) == 0", "not used_parts"), "_format_segment: literal iff no part occurs in the segment",
-                  "v2version._format_segment: literal classification changed", unparse(d) if d is not None else "", loc=fs.loc())
-    za = [a for a in fpc.atoms if a.replace(" ", "") in ("zero_part_count>0",)]
-    zb = [a for a in fpc.atoms if a.replace(" ", "") in ("zero_part_count==len(used_parts)",)]
-    ctx.require(len(za) == 1 and len(zb) == 1, "_format_segment: zero test atoms not recognised")
-    Z = BF.var(za[0]) & BF.var(zb[0])
-    atoms = [lit_atoms[0], za[0], zb[0]]
-    ok = kinds[(True, False)].project(atoms).equiv(L) and kinds[(False, True)].project(atoms).equiv(~L & Z) and kinds[(False, False)].project(atoms).equiv(~L & ~Z)
-    ctx.check(rule, ok, "_format_segment: literal iff no part; zero iff every used part renders its zero value; otherwise a normal segment",
-              "v2version._format_segment: classification of literal/zero segments changed", f"zero iff {kinds[(False, True)].project(atoms).to_dnf()}", loc=fs.loc())
+    from sa.pathcond import expr_atoms
+    seg_fields = prog.klass("v2version.FormatedSeg").fields
+    rets = [n for n in fg.nodes if n.kind == "stmt" and isinstance(n.ast, ast.Return) and isinstance(n.ast.value, ast.Call)
+            and unparse(n.ast.value.func) == "FormatedSeg" and n.id in fg.reachable()]
+    ctx.require(rets, "_format_segment: FormatedSeg returns not found")
+    extra: T.List[str] = []
+    parsed = []
+    for n in rets:
+        args = dict(zip(seg_fields, n.ast.value.args))
+        args.update(shapes.kwargs_of(n.ast.value))
+        ctx.require("is_literal" in args and "is_zero" in args, "_format_segment: FormatedSeg arguments not recognised")
+        il, iz = shapes.inline(fs, args["is_literal"], prog, consts=False), shapes.inline(fs, args["is_zero"], prog, consts=False)
+        extra += expr_atoms(il) + expr_atoms(iz)
+        parsed.append((n, il, iz))
+    fpc = PathCond(fg, extra_atoms=list(dict.fromkeys(extra)))
+    LITF, ZEROF = BF.false(), BF.false()
+    for n, il, iz in parsed:
+        r = fpc.reach(n.id)
+        bl, bz = fpc.expr_bf(il), fpc.expr_bf(iz)
+        ctx.require(bl is not None and bz is not None, "_format_segment: return arguments are not boolean expressions over branch atoms")
+        LITF = LITF | (r & bl)
+        ZEROF = ZEROF | (r & bz)
+
+    def cls(leaf: ast.AST) -> T.Tuple[str, bool]:
+        t = unparse(leaf).replace(" ", "")
+        if t in ("len(used_parts)==0",):
+            return "LIT", True
+        if t in ("used_parts", "len(used_parts)>0", "len(used_parts)"):
+            return "LIT", False
+        if t in ("zero_part_count>0",):
+            return "ZPOS", True
+        if t in ("zero_part_count==len(used_parts)", "len(used_parts)==zero_part_count"):
+            return "ZALL", True
+        raise AnalysisError(f"_format_segment: leaf not enumerated: {unparse(leaf)}")
+    lit_s = shapes.semantic_bf(LITF, fs, cls, prog)
+    zero_s = shapes.semantic_bf(ZEROF, fs, cls, prog)
+    L, ZP, ZA = BF.var("LIT"), BF.var("ZPOS"), BF.var("ZALL")
+    ctx.check(rule, lit_s.equiv(L) and zero_s.equiv(~L & ZP & ZA),
+              "_format_segment: literal iff no part occurs; zero iff it has parts and every used part renders its zero value",
+              "v2version._format_segment: classification of literal/zero segments changed", f"literal iff {lit_s.to_dnf()}; zero iff {zero_s.to_dnf()}", loc=fs.loc())
 
 
 def _parse_defaults(ctx, pv) -> T.Dict[str, T.Any]:
